@@ -132,7 +132,80 @@ impl Lab<'_> {
                 json!({"case": desc}),
             );
         }
+        if c.relation && rep.satisfied() && !c.returned.is_empty() {
+            self.consumer_copy_break(c, &regs);
+        }
         Some(Honest { layout, snap, regs, own, rows })
+    }
+
+    /// Cell-level adversary on what the component returns. The program gets a
+    /// consumer row `assert_equal(returned, claimed)` with `claimed` a fresh
+    /// input. Honest: claimed = the specified value. Forged: claimed = that
+    /// value + 1 and the consumer row's first cell re-wired (in the proved
+    /// instance only) to the `claimed` witness: every row identity holds, only
+    /// the copy constraint tying the consumer cell to the returned witness is
+    /// broken. The real prover must refuse - unless the compiled permutation
+    /// has lost the link between the component's rows and its result. A few
+    /// per component and run (each costs a compile and a prove).
+    fn consumer_copy_break(&self, c: &Case, regs: &Regs) {
+        use crate::gen::program::Tamper;
+        let ev = self.ev;
+        let comp = c.component.split(['<', '(']).next().unwrap().to_string();
+        let key = format!("copybreak.{comp}");
+        if ev.bucket_get(&key) >= self.near_miss_cap() / 2 {
+            return;
+        }
+        ev.bucket(&key);
+        let ri = (ev.bucket_get(&key) as usize) % c.returned.len();
+        let ret = c.returned[ri];
+        let new_reg = regs.s.len();
+        let mut ops = c.prog.ops.clone();
+        // (the input vector of a case may be longer than its program declares)
+        let claim_input = c.inputs.scalars.len().max(c.prog.n_scalar_inputs);
+        ops.push(Op::Witness(claim_input));
+        ops.push(Op::AssertEq(ret, new_reg));
+        let prog = Arc::new(Program { ops, n_scalar_inputs: claim_input + 1, n_point_inputs: c.prog.n_point_inputs, n_digit_inputs: c.prog.n_digit_inputs });
+        let mut honest_in = c.inputs.clone();
+        honest_in.scalars.resize(claim_input, BlsScalar::zero());
+        honest_in.scalars.push(c.expected[ri]);
+        let mut forged_in = c.inputs.clone();
+        forged_in.scalars.resize(claim_input, BlsScalar::zero());
+        forged_in.scalars.push(c.expected[ri] + BlsScalar::one());
+        let Ok((hsnap, hregs)) = common::build_instance(&prog, &honest_in, &[]) else { return };
+        let Ok((layout, _)) = common::build_instance(&prog, &Inputs::default_for(&prog), &[]) else { return };
+        if !sat::check(&layout, &hsnap).satisfied() {
+            ev.violation(&format!("{}:{}:returned-witness-does-not-equal-the-specified-value-in-a-consumer-row", self.id, comp), json!({"component": c.component, "note": c.note}));
+            return;
+        }
+        let consumer_row = hsnap.gates.len() - 1;
+        let claimed = hregs.s[new_reg].index();
+        let tamper = vec![Tamper::SetWire { row: consumer_row, wire: 0, witness: claimed }];
+        let Ok((fsnap, _)) = common::build_instance(&prog, &forged_in, &tamper) else { return };
+        let rep = sat::check(&layout, &fsnap);
+        if rep.satisfied() {
+            // the reference model itself sees no violation: not the assignment intended
+            ev.bucket("copybreak.not-a-violation-for-the-model");
+            return;
+        }
+        let pp = crate::util::pp(common::min_degree(layout.gates.len()));
+        let Ok(compiled) = common::compile(&pp, b"gadget-copy-break", &prog) else { return };
+        let mut rng = case_rng(self.seed, "gadget.copybreak", layout.gates.len() as u64);
+        let proved = common::prove(&compiled.prover, &prog, &forged_in, &tamper, &mut rng, PlonkVersion::V3);
+        ev.bucket("copybreak.end_to_end");
+        let verdict = match proved.result {
+            Ok((proof, pi)) => match common::verify(&compiled.verifier, &proof, &pi, PlonkVersion::V3) {
+                Ok(()) => "ACCEPTS".to_string(),
+                Err(_) => "rejects".to_string(),
+            },
+            Err(Fail::Err(dusk_plonk::prelude::Error::CircuitUnsatisfied)) => "prover-refuses".to_string(),
+            Err(f) => f.text(),
+        };
+        if verdict != "prover-refuses" && verdict != "rejects" {
+            ev.violation(
+                &format!("{}:{}:returned-witness-not-bound-to-its-consumer:copy-constraint-only:real-prover-and-verifier={}", self.id, comp, verdict),
+                json!({"component": c.component, "note": c.note, "returned_register": ret, "violated": rep.violated.iter().take(4).map(|(r, k)| format!("{r}:{}", k.name())).collect::<Vec<_>>()}),
+            );
+        }
     }
 
     /// One adversarial assignment.
@@ -387,6 +460,26 @@ fn preludes(c: &Case, snap: &Snapshot, regs: &Regs, rng: &mut impl rand_core::Rn
             }
         }
         _ => {}
+    }
+    // the same call with its first scalar operand replaced by a circuit
+    // constant (ZERO is what every witness holds in the default instance the
+    // keys are compiled from, so anything keyed on witness *values* collides
+    // at compile time and not at proving time)
+    if let Some(&first) = sregs.first() {
+        if first >= 2 {
+            let sibling = |c: Reg| op.map_regs(&|r| if r == first { c } else { r }, &|p| p);
+            let ok = match op {
+                Op::LogicAnd(..) | Op::LogicXor(..) | Op::Truncate(..) | Op::SelectPoint(..) | Op::SelectIdentity(..) | Op::SelectOne(..) | Op::SelectZero(..) => true,
+                Op::MulPoint(..) => points_are_subgroup,
+                Op::MulGenerator(..) => true,
+                Op::Decomposition(n, _) | Op::RangeBits(n, _) | Op::RangeSeam(n, _) => *n >= 1,
+                _ => false,
+            };
+            if ok {
+                out.push(("same-call-on-constant-ZERO".into(), vec![sibling(0)]));
+                out.push(("same-call-on-constant-ONE".into(), vec![sibling(1)]));
+            }
+        }
     }
     if points_are_subgroup {
         if let Some(&a) = pregs.first() {
